@@ -11,6 +11,7 @@ package filterh
 import (
 	"encoding/json"
 	"fmt"
+	"reflect"
 	"sort"
 	"strings"
 
@@ -54,6 +55,7 @@ type Group struct {
 type Case struct {
 	Kind   string   `json:"kind"`
 	Acl    string   `json:"acl"`
+	Prior  string   `json:"prior"` // "yes": the reply object already carries ResultsFilteredByACLs=true on entry
 	Groups []*Group `json:"groups"`
 }
 
@@ -77,6 +79,8 @@ type Event struct {
 	Src      string     `json:"src"`
 	In       []*Group   `json:"in"`
 	Out      []OutGroup `json:"out"`
+	Prior    string     `json:"prior"` // flag on entry, read off the reply object just before Filter runs
+	Seq      int        `json:"seq"`   // 2: second evaluation on the same reply object
 	Flag     string     `json:"flag"`
 	Reps     int        `json:"reps"`
 	Outcomes int        `json:"outcomes"`
@@ -598,8 +602,70 @@ func one(g *Group) *El {
 }
 
 type runner struct {
+	obj  any // the reply object handed to Filter when it is a *struct with QueryMeta (nil otherwise)
 	run  func(f *aclfilter.Filter, az acl.Authorizer)
 	proj func() ([]OutGroup, string)
+}
+
+// flagFields returns the settable flag fields of a reply object: QueryMeta.ResultsFilteredByACLs and, for
+// IndexedServiceTopology, FilteredByACLs.
+func flagFields(obj any) []reflect.Value {
+	if obj == nil {
+		return nil
+	}
+	v := reflect.ValueOf(obj)
+	if v.Kind() != reflect.Ptr || v.Elem().Kind() != reflect.Struct {
+		return nil
+	}
+	var out []reflect.Value
+	if qm := v.Elem().FieldByName("QueryMeta"); qm.IsValid() {
+		if f := qm.FieldByName("ResultsFilteredByACLs"); f.IsValid() && f.CanSet() {
+			out = append(out, f)
+		}
+	}
+	if f := v.Elem().FieldByName("FilteredByACLs"); f.IsValid() && f.CanSet() {
+		out = append(out, f)
+	}
+	return out
+}
+
+// setPrior puts the reply object into the state a re-used reply of a blocking query has on entry.
+func setPrior(obj any, on bool) {
+	for _, f := range flagFields(obj) {
+		f.SetBool(on)
+	}
+}
+
+// priorOf reads the flag on entry off the object itself: "yes" / "no" / "mixed", "na" without a flag.
+func priorOf(obj any) string {
+	fs := flagFields(obj)
+	if len(fs) == 0 {
+		return "na"
+	}
+	for _, f := range fs[1:] {
+		if f.Bool() != fs[0].Bool() {
+			return "mixed"
+		}
+	}
+	return yn(fs[0].Bool())
+}
+
+// repopulate copies the payload of a freshly built reply into an existing reply object, keeping the
+// existing object's QueryMeta (and FilteredByACLs): what an endpoint's query function does when
+// blockingquery.Query runs it again against the same reply.
+func repopulate(dst, src any) error {
+	d, s := reflect.ValueOf(dst), reflect.ValueOf(src)
+	if dst == nil || src == nil || d.Type() != s.Type() || d.Kind() != reflect.Ptr || d.Elem().Kind() != reflect.Struct {
+		return fmt.Errorf("cannot re-use %T for %T", dst, src)
+	}
+	t := d.Elem().Type()
+	for i := 0; i < t.NumField(); i++ {
+		if n := t.Field(i).Name; n == "QueryMeta" || n == "FilteredByACLs" {
+			continue
+		}
+		d.Elem().Field(i).Set(s.Elem().Field(i))
+	}
+	return nil
 }
 
 func flat(key string, items []OutEl) []OutGroup {
@@ -626,21 +692,21 @@ func Build(c *Case) (*runner, error) {
 	switch c.Kind {
 	case "CheckServiceNodes":
 		v := csnList(g0().Items)
-		return &runner{func(f *aclfilter.Filter, _ acl.Authorizer) { f.Filter(&v) },
-			func() ([]OutGroup, string) { return flat("list", projCSN(v)), "na" }}, nil
+		return &runner{obj: nil, run: func(f *aclfilter.Filter, _ acl.Authorizer) { f.Filter(&v) },
+			proj: func() ([]OutGroup, string) { return flat("list", projCSN(v)), "na" }}, nil
 	case "IndexedCheckServiceNodes":
 		v := &structs.IndexedCheckServiceNodes{Nodes: csnList(g0().Items)}
-		return &runner{func(f *aclfilter.Filter, _ acl.Authorizer) { f.Filter(v) },
-			func() ([]OutGroup, string) { return flat("list", projCSN(v.Nodes)), yn(v.ResultsFilteredByACLs) }}, nil
+		return &runner{obj: v, run: func(f *aclfilter.Filter, _ acl.Authorizer) { f.Filter(v) },
+			proj: func() ([]OutGroup, string) { return flat("list", projCSN(v.Nodes)), yn(v.ResultsFilteredByACLs) }}, nil
 	case "PreparedQueryExecuteResponse":
 		v := &structs.PreparedQueryExecuteResponse{Service: "web", Nodes: csnList(g0().Items)}
-		return &runner{func(f *aclfilter.Filter, _ acl.Authorizer) { f.Filter(v) },
-			func() ([]OutGroup, string) { return flat("list", projCSN(v.Nodes)), yn(v.ResultsFilteredByACLs) }}, nil
+		return &runner{obj: v, run: func(f *aclfilter.Filter, _ acl.Authorizer) { f.Filter(v) },
+			proj: func() ([]OutGroup, string) { return flat("list", projCSN(v.Nodes)), yn(v.ResultsFilteredByACLs) }}, nil
 	case "IndexedServiceTopology":
 		v := &structs.IndexedServiceTopology{ServiceTopology: &structs.ServiceTopology{
 			Upstreams: csnList(byKey("up").Items), Downstreams: csnList(byKey("down").Items)}}
-		return &runner{func(f *aclfilter.Filter, _ acl.Authorizer) { f.Filter(v) },
-			func() ([]OutGroup, string) {
+		return &runner{obj: v, run: func(f *aclfilter.Filter, _ acl.Authorizer) { f.Filter(v) },
+			proj: func() ([]OutGroup, string) {
 				flag := "mixed" // FilteredByACLs and QueryMeta.ResultsFilteredByACLs must agree
 				if v.FilteredByACLs == v.ResultsFilteredByACLs {
 					flag = yn(v.ResultsFilteredByACLs)
@@ -653,8 +719,8 @@ func Build(c *Case) (*runner, error) {
 		for _, g := range gs {
 			v.DatacenterNodes[g.Key] = csnList(g.Items)
 		}
-		return &runner{func(f *aclfilter.Filter, _ acl.Authorizer) { f.Filter(v) },
-			func() ([]OutGroup, string) {
+		return &runner{obj: v, run: func(f *aclfilter.Filter, _ acl.Authorizer) { f.Filter(v) },
+			proj: func() ([]OutGroup, string) {
 				out := []OutGroup{}
 				for _, k := range sortedKeys(v.DatacenterNodes) {
 					out = append(out, OutGroup{Key: k, Hd: "na", Items: projCSN(v.DatacenterNodes[k])})
@@ -665,14 +731,14 @@ func Build(c *Case) (*runner, error) {
 		v := &structs.IndexedCoordinates{Coordinates: ptrList(g0().Items, func(e *El) *structs.Coordinate {
 			return &structs.Coordinate{Node: e.nm.node, Segment: e.Lab}
 		})}
-		return &runner{func(f *aclfilter.Filter, _ acl.Authorizer) { f.Filter(v) },
-			func() ([]OutGroup, string) {
+		return &runner{obj: v, run: func(f *aclfilter.Filter, _ acl.Authorizer) { f.Filter(v) },
+			proj: func() ([]OutGroup, string) {
 				return flat("list", projPtr(v.Coordinates, func(x *structs.Coordinate) string { return x.Segment }, nil)), yn(v.ResultsFilteredByACLs)
 			}}, nil
 	case "IndexedHealthChecks":
 		v := &structs.IndexedHealthChecks{HealthChecks: ptrList(g0().Items, func(e *El) *structs.HealthCheck { return mkCheck(e, e.nm.node) })}
-		return &runner{func(f *aclfilter.Filter, _ acl.Authorizer) { f.Filter(v) },
-			func() ([]OutGroup, string) {
+		return &runner{obj: v, run: func(f *aclfilter.Filter, _ acl.Authorizer) { f.Filter(v) },
+			proj: func() ([]OutGroup, string) {
 				return flat("list", projPtr(v.HealthChecks, func(x *structs.HealthCheck) string { return string(x.CheckID) }, nil)), yn(v.ResultsFilteredByACLs)
 			}}, nil
 	case "IndexedIntentions":
@@ -680,8 +746,8 @@ func Build(c *Case) (*runner, error) {
 			return &structs.Intention{ID: e.Lab, SourceNS: "default", SourceName: e.nm.src, SourcePeer: e.nm.srcPeer,
 				DestinationNS: "default", DestinationName: e.nm.dst, Action: structs.IntentionActionAllow}
 		})}
-		return &runner{func(f *aclfilter.Filter, _ acl.Authorizer) { f.Filter(v) },
-			func() ([]OutGroup, string) {
+		return &runner{obj: v, run: func(f *aclfilter.Filter, _ acl.Authorizer) { f.Filter(v) },
+			proj: func() ([]OutGroup, string) {
 				return flat("list", projPtr(v.Intentions, func(x *structs.Intention) string { return x.ID }, nil)), yn(v.ResultsFilteredByACLs)
 			}}, nil
 	case "IntentionQueryMatch":
@@ -689,8 +755,8 @@ func Build(c *Case) (*runner, error) {
 		for _, e := range g0().Items {
 			v.Entries = append(v.Entries, structs.IntentionMatchEntry{Namespace: "default", Name: e.nm.match})
 		}
-		return &runner{func(f *aclfilter.Filter, _ acl.Authorizer) { f.Filter(v) },
-			func() ([]OutGroup, string) {
+		return &runner{obj: v, run: func(f *aclfilter.Filter, _ acl.Authorizer) { f.Filter(v) },
+			proj: func() ([]OutGroup, string) {
 				out := []OutEl{}
 				for _, en := range v.Entries {
 					out = append(out, OutEl{Lab: en.Name, Tok: "na", Subs: [][]string{}})
@@ -725,8 +791,8 @@ func Build(c *Case) (*runner, error) {
 			return out
 		}
 		v := &structs.IndexedNodeDump{Dump: ptrList(byKey("dump").Items, mk), ImportedDump: ptrList(byKey("imported").Items, mk)}
-		return &runner{func(f *aclfilter.Filter, _ acl.Authorizer) { f.Filter(v) },
-			func() ([]OutGroup, string) {
+		return &runner{obj: v, run: func(f *aclfilter.Filter, _ acl.Authorizer) { f.Filter(v) },
+			proj: func() ([]OutGroup, string) {
 				return []OutGroup{{Key: "dump", Hd: "na", Items: proj(v.Dump)}, {Key: "imported", Hd: "na", Items: proj(v.ImportedDump)}},
 					yn(v.ResultsFilteredByACLs)
 			}}, nil
@@ -739,14 +805,14 @@ func Build(c *Case) (*runner, error) {
 			}
 			return si
 		})}
-		return &runner{func(f *aclfilter.Filter, _ acl.Authorizer) { f.Filter(v) },
-			func() ([]OutGroup, string) {
+		return &runner{obj: v, run: func(f *aclfilter.Filter, _ acl.Authorizer) { f.Filter(v) },
+			proj: func() ([]OutGroup, string) {
 				return flat("list", projPtr(v.Dump, func(x *structs.ServiceInfo) string { return x.GatewayService.SNI }, nil)), yn(v.ResultsFilteredByACLs)
 			}}, nil
 	case "IndexedNodes":
 		v := &structs.IndexedNodes{Nodes: ptrList(g0().Items, mkNode)}
-		return &runner{func(f *aclfilter.Filter, _ acl.Authorizer) { f.Filter(v) },
-			func() ([]OutGroup, string) {
+		return &runner{obj: v, run: func(f *aclfilter.Filter, _ acl.Authorizer) { f.Filter(v) },
+			proj: func() ([]OutGroup, string) {
 				return flat("list", projPtr(v.Nodes, func(x *structs.Node) string { return string(x.ID) }, nil)), yn(v.ResultsFilteredByACLs)
 			}}, nil
 	case "IndexedNodeServices":
@@ -758,8 +824,8 @@ func Build(c *Case) (*runner, error) {
 				v.NodeServices.Services[e.Lab] = mkNodeService(e) // keyed by service ID, as state.Store.NodeServices does
 			}
 		}
-		return &runner{func(f *aclfilter.Filter, _ acl.Authorizer) { f.Filter(v) },
-			func() ([]OutGroup, string) {
+		return &runner{obj: v, run: func(f *aclfilter.Filter, _ acl.Authorizer) { f.Filter(v) },
+			proj: func() ([]OutGroup, string) {
 				og := OutGroup{Key: "list", Hd: "nil", Items: []OutEl{}}
 				if v.NodeServices != nil {
 					og.Hd = "kept"
@@ -775,8 +841,8 @@ func Build(c *Case) (*runner, error) {
 		if g.Hd != "nil" {
 			v.NodeServices = structs.NodeServiceList{Node: &structs.Node{Node: g.hdName, ID: "head"}, Services: ptrList(g.Items, mkNodeService)}
 		}
-		return &runner{func(f *aclfilter.Filter, _ acl.Authorizer) { f.Filter(v) },
-			func() ([]OutGroup, string) {
+		return &runner{obj: v, run: func(f *aclfilter.Filter, _ acl.Authorizer) { f.Filter(v) },
+			proj: func() ([]OutGroup, string) {
 				og := OutGroup{Key: "list", Hd: "nil"}
 				if v.NodeServices.Node != nil {
 					og.Hd = "kept"
@@ -788,8 +854,8 @@ func Build(c *Case) (*runner, error) {
 		v := &structs.IndexedServiceNodes{ServiceNodes: ptrList(g0().Items, func(e *El) *structs.ServiceNode {
 			return &structs.ServiceNode{Node: e.nm.node, ServiceID: e.Lab, ServiceName: e.nm.svc, Address: "10.0.0.3", PeerName: peerOf(e)}
 		})}
-		return &runner{func(f *aclfilter.Filter, _ acl.Authorizer) { f.Filter(v) },
-			func() ([]OutGroup, string) {
+		return &runner{obj: v, run: func(f *aclfilter.Filter, _ acl.Authorizer) { f.Filter(v) },
+			proj: func() ([]OutGroup, string) {
 				return flat("list", projPtr(v.ServiceNodes, func(x *structs.ServiceNode) string { return x.ServiceID }, nil)), yn(v.ResultsFilteredByACLs)
 			}}, nil
 	case "IndexedServices":
@@ -797,8 +863,8 @@ func Build(c *Case) (*runner, error) {
 		for _, e := range g0().Items {
 			v.Services[e.nm.svc] = []string{"tag"}
 		}
-		return &runner{func(f *aclfilter.Filter, _ acl.Authorizer) { f.Filter(v) },
-			func() ([]OutGroup, string) {
+		return &runner{obj: v, run: func(f *aclfilter.Filter, _ acl.Authorizer) { f.Filter(v) },
+			proj: func() ([]OutGroup, string) {
 				out := []OutEl{}
 				for _, k := range sortedKeys(v.Services) {
 					out = append(out, OutEl{Lab: k, Tok: "na", Subs: [][]string{}})
@@ -809,8 +875,8 @@ func Build(c *Case) (*runner, error) {
 		v := &structs.IndexedSessions{Sessions: ptrList(g0().Items, func(e *El) *structs.Session {
 			return &structs.Session{ID: e.Lab, Node: e.nm.node}
 		})}
-		return &runner{func(f *aclfilter.Filter, _ acl.Authorizer) { f.Filter(v) },
-			func() ([]OutGroup, string) {
+		return &runner{obj: v, run: func(f *aclfilter.Filter, _ acl.Authorizer) { f.Filter(v) },
+			proj: func() ([]OutGroup, string) {
 				return flat("list", projPtr(v.Sessions, func(x *structs.Session) string { return x.ID }, nil)), yn(v.ResultsFilteredByACLs)
 			}}, nil
 	case "IndexedPreparedQueries", "PreparedQueryOne":
@@ -830,8 +896,8 @@ func Build(c *Case) (*runner, error) {
 			}
 			v := mk(e)
 			orig := v
-			return &runner{func(f *aclfilter.Filter, _ acl.Authorizer) { f.Filter(&v) },
-				func() ([]OutGroup, string) {
+			return &runner{obj: nil, run: func(f *aclfilter.Filter, _ acl.Authorizer) { f.Filter(&v) },
+				proj: func() ([]OutGroup, string) {
 					if orig.Token != "" && orig.Token != "captured-secret-"+e.Lab {
 						return flat("list", []OutEl{{Lab: "<caller's copy modified>", Tok: "na", Subs: [][]string{}}}), "na"
 					}
@@ -839,8 +905,8 @@ func Build(c *Case) (*runner, error) {
 				}}, nil
 		}
 		v := &structs.IndexedPreparedQueries{Queries: ptrList(g0().Items, mk)}
-		return &runner{func(f *aclfilter.Filter, _ acl.Authorizer) { f.Filter(v) },
-			func() ([]OutGroup, string) { return flat("list", projPtr(v.Queries, lab, tok)), yn(v.ResultsFilteredByACLs) }}, nil
+		return &runner{obj: v, run: func(f *aclfilter.Filter, _ acl.Authorizer) { f.Filter(v) },
+			proj: func() ([]OutGroup, string) { return flat("list", projPtr(v.Queries, lab, tok)), yn(v.ResultsFilteredByACLs) }}, nil
 	case "ACLTokens", "ACLTokenOne":
 		mk := func(e *El) *structs.ACLToken {
 			return &structs.ACLToken{AccessorID: e.Lab, SecretID: "secret-" + e.Lab, Description: "t"}
@@ -852,12 +918,12 @@ func Build(c *Case) (*runner, error) {
 			if e := one(g0()); e != nil {
 				v = mk(e)
 			}
-			return &runner{func(f *aclfilter.Filter, _ acl.Authorizer) { f.Filter(&v) },
-				func() ([]OutGroup, string) { return flat("list", projOne(v, lab, tok)), "na" }}, nil
+			return &runner{obj: nil, run: func(f *aclfilter.Filter, _ acl.Authorizer) { f.Filter(&v) },
+				proj: func() ([]OutGroup, string) { return flat("list", projOne(v, lab, tok)), "na" }}, nil
 		}
 		v := structs.ACLTokens(ptrList(g0().Items, mk))
-		return &runner{func(f *aclfilter.Filter, _ acl.Authorizer) { f.Filter(&v) },
-			func() ([]OutGroup, string) { return flat("list", projPtr(v, lab, tok)), "na" }}, nil
+		return &runner{obj: nil, run: func(f *aclfilter.Filter, _ acl.Authorizer) { f.Filter(&v) },
+			proj: func() ([]OutGroup, string) { return flat("list", projPtr(v, lab, tok)), "na" }}, nil
 	case "ACLTokenListStubs", "ACLTokenListStubOne":
 		mk := func(e *El) *structs.ACLTokenListStub {
 			return &structs.ACLTokenListStub{AccessorID: e.Lab, SecretID: "secret-" + e.Lab}
@@ -869,12 +935,12 @@ func Build(c *Case) (*runner, error) {
 			if e := one(g0()); e != nil {
 				v = mk(e)
 			}
-			return &runner{func(f *aclfilter.Filter, _ acl.Authorizer) { f.Filter(&v) },
-				func() ([]OutGroup, string) { return flat("list", projOne(v, lab, tok)), "na" }}, nil
+			return &runner{obj: nil, run: func(f *aclfilter.Filter, _ acl.Authorizer) { f.Filter(&v) },
+				proj: func() ([]OutGroup, string) { return flat("list", projOne(v, lab, tok)), "na" }}, nil
 		}
 		v := ptrList(g0().Items, mk)
-		return &runner{func(f *aclfilter.Filter, _ acl.Authorizer) { f.Filter(&v) },
-			func() ([]OutGroup, string) { return flat("list", projPtr(v, lab, tok)), "na" }}, nil
+		return &runner{obj: nil, run: func(f *aclfilter.Filter, _ acl.Authorizer) { f.Filter(&v) },
+			proj: func() ([]OutGroup, string) { return flat("list", projPtr(v, lab, tok)), "na" }}, nil
 	case "ACLPolicies", "ACLPolicyOne":
 		mk := func(e *El) *structs.ACLPolicy { return &structs.ACLPolicy{ID: e.Lab, Name: "p-" + e.Lab} }
 		lab := func(x *structs.ACLPolicy) string { return x.ID }
@@ -883,12 +949,12 @@ func Build(c *Case) (*runner, error) {
 			if e := one(g0()); e != nil {
 				v = mk(e)
 			}
-			return &runner{func(f *aclfilter.Filter, _ acl.Authorizer) { f.Filter(&v) },
-				func() ([]OutGroup, string) { return flat("list", projOne(v, lab, nil)), "na" }}, nil
+			return &runner{obj: nil, run: func(f *aclfilter.Filter, _ acl.Authorizer) { f.Filter(&v) },
+				proj: func() ([]OutGroup, string) { return flat("list", projOne(v, lab, nil)), "na" }}, nil
 		}
 		v := structs.ACLPolicies(ptrList(g0().Items, mk))
-		return &runner{func(f *aclfilter.Filter, _ acl.Authorizer) { f.Filter(&v) },
-			func() ([]OutGroup, string) { return flat("list", projPtr(v, lab, nil)), "na" }}, nil
+		return &runner{obj: nil, run: func(f *aclfilter.Filter, _ acl.Authorizer) { f.Filter(&v) },
+			proj: func() ([]OutGroup, string) { return flat("list", projPtr(v, lab, nil)), "na" }}, nil
 	case "ACLRoles", "ACLRoleOne":
 		mk := func(e *El) *structs.ACLRole { return &structs.ACLRole{ID: e.Lab, Name: "r-" + e.Lab} }
 		lab := func(x *structs.ACLRole) string { return x.ID }
@@ -897,12 +963,12 @@ func Build(c *Case) (*runner, error) {
 			if e := one(g0()); e != nil {
 				v = mk(e)
 			}
-			return &runner{func(f *aclfilter.Filter, _ acl.Authorizer) { f.Filter(&v) },
-				func() ([]OutGroup, string) { return flat("list", projOne(v, lab, nil)), "na" }}, nil
+			return &runner{obj: nil, run: func(f *aclfilter.Filter, _ acl.Authorizer) { f.Filter(&v) },
+				proj: func() ([]OutGroup, string) { return flat("list", projOne(v, lab, nil)), "na" }}, nil
 		}
 		v := structs.ACLRoles(ptrList(g0().Items, mk))
-		return &runner{func(f *aclfilter.Filter, _ acl.Authorizer) { f.Filter(&v) },
-			func() ([]OutGroup, string) { return flat("list", projPtr(v, lab, nil)), "na" }}, nil
+		return &runner{obj: nil, run: func(f *aclfilter.Filter, _ acl.Authorizer) { f.Filter(&v) },
+			proj: func() ([]OutGroup, string) { return flat("list", projPtr(v, lab, nil)), "na" }}, nil
 	case "ACLBindingRules", "ACLBindingRuleOne":
 		mk := func(e *El) *structs.ACLBindingRule { return &structs.ACLBindingRule{ID: e.Lab, AuthMethod: "m"} }
 		lab := func(x *structs.ACLBindingRule) string { return x.ID }
@@ -911,12 +977,12 @@ func Build(c *Case) (*runner, error) {
 			if e := one(g0()); e != nil {
 				v = mk(e)
 			}
-			return &runner{func(f *aclfilter.Filter, _ acl.Authorizer) { f.Filter(&v) },
-				func() ([]OutGroup, string) { return flat("list", projOne(v, lab, nil)), "na" }}, nil
+			return &runner{obj: nil, run: func(f *aclfilter.Filter, _ acl.Authorizer) { f.Filter(&v) },
+				proj: func() ([]OutGroup, string) { return flat("list", projOne(v, lab, nil)), "na" }}, nil
 		}
 		v := structs.ACLBindingRules(ptrList(g0().Items, mk))
-		return &runner{func(f *aclfilter.Filter, _ acl.Authorizer) { f.Filter(&v) },
-			func() ([]OutGroup, string) { return flat("list", projPtr(v, lab, nil)), "na" }}, nil
+		return &runner{obj: nil, run: func(f *aclfilter.Filter, _ acl.Authorizer) { f.Filter(&v) },
+			proj: func() ([]OutGroup, string) { return flat("list", projPtr(v, lab, nil)), "na" }}, nil
 	case "ACLAuthMethods", "ACLAuthMethodOne":
 		mk := func(e *El) *structs.ACLAuthMethod { return &structs.ACLAuthMethod{Name: e.Lab, Type: "jwt"} }
 		lab := func(x *structs.ACLAuthMethod) string { return x.Name }
@@ -925,23 +991,23 @@ func Build(c *Case) (*runner, error) {
 			if e := one(g0()); e != nil {
 				v = mk(e)
 			}
-			return &runner{func(f *aclfilter.Filter, _ acl.Authorizer) { f.Filter(&v) },
-				func() ([]OutGroup, string) { return flat("list", projOne(v, lab, nil)), "na" }}, nil
+			return &runner{obj: nil, run: func(f *aclfilter.Filter, _ acl.Authorizer) { f.Filter(&v) },
+				proj: func() ([]OutGroup, string) { return flat("list", projOne(v, lab, nil)), "na" }}, nil
 		}
 		v := structs.ACLAuthMethods(ptrList(g0().Items, mk))
-		return &runner{func(f *aclfilter.Filter, _ acl.Authorizer) { f.Filter(&v) },
-			func() ([]OutGroup, string) { return flat("list", projPtr(v, lab, nil)), "na" }}, nil
+		return &runner{obj: nil, run: func(f *aclfilter.Filter, _ acl.Authorizer) { f.Filter(&v) },
+			proj: func() ([]OutGroup, string) { return flat("list", projPtr(v, lab, nil)), "na" }}, nil
 	case "IndexedServiceList":
 		v := &structs.IndexedServiceList{Services: svcList(g0().Items)}
-		return &runner{func(f *aclfilter.Filter, _ acl.Authorizer) { f.Filter(v) },
-			func() ([]OutGroup, string) { return flat("list", projSvcList(v.Services)), yn(v.ResultsFilteredByACLs) }}, nil
+		return &runner{obj: v, run: func(f *aclfilter.Filter, _ acl.Authorizer) { f.Filter(v) },
+			proj: func() ([]OutGroup, string) { return flat("list", projSvcList(v.Services)), yn(v.ResultsFilteredByACLs) }}, nil
 	case "IndexedExportedServiceList":
 		v := &structs.IndexedExportedServiceList{Services: map[string]structs.ServiceList{}}
 		for _, g := range gs {
 			v.Services[g.Key] = svcList(g.Items)
 		}
-		return &runner{func(f *aclfilter.Filter, _ acl.Authorizer) { f.Filter(v) },
-			func() ([]OutGroup, string) {
+		return &runner{obj: v, run: func(f *aclfilter.Filter, _ acl.Authorizer) { f.Filter(v) },
+			proj: func() ([]OutGroup, string) {
 				out := []OutGroup{}
 				for _, k := range sortedKeys(v.Services) {
 					out = append(out, OutGroup{Key: k, Hd: "na", Items: projSvcList(v.Services[k])})
@@ -950,15 +1016,15 @@ func Build(c *Case) (*runner, error) {
 			}}, nil
 	case "IndexedGatewayServices":
 		v := &structs.IndexedGatewayServices{Services: ptrList(g0().Items, mkGatewayService)}
-		return &runner{func(f *aclfilter.Filter, _ acl.Authorizer) { f.Filter(v) },
-			func() ([]OutGroup, string) {
+		return &runner{obj: v, run: func(f *aclfilter.Filter, _ acl.Authorizer) { f.Filter(v) },
+			proj: func() ([]OutGroup, string) {
 				return flat("list", projPtr(v.Services, func(x *structs.GatewayService) string { return x.SNI }, nil)), yn(v.ResultsFilteredByACLs)
 			}}, nil
 	case "IndexedNodesWithGateways":
 		v := &structs.IndexedNodesWithGateways{Nodes: csnList(byKey("nodes").Items),
 			Gateways: ptrList(byKey("gateways").Items, mkGatewayService), ImportedNodes: csnList(byKey("imported").Items)}
-		return &runner{func(f *aclfilter.Filter, _ acl.Authorizer) { f.Filter(v) },
-			func() ([]OutGroup, string) {
+		return &runner{obj: v, run: func(f *aclfilter.Filter, _ acl.Authorizer) { f.Filter(v) },
+			proj: func() ([]OutGroup, string) {
 				return []OutGroup{{Key: "nodes", Hd: "na", Items: projCSN(v.Nodes)},
 					{Key: "gateways", Hd: "na", Items: projPtr(v.Gateways, func(x *structs.GatewayService) string { return x.SNI }, nil)},
 					{Key: "imported", Hd: "na", Items: projCSN(v.ImportedNodes)}}, yn(v.ResultsFilteredByACLs)
@@ -968,8 +1034,8 @@ func Build(c *Case) (*runner, error) {
 			return &structs.DirEntry{Key: e.nm.key, Value: []byte(e.Lab)}
 		}))
 		var res structs.DirEntries
-		return &runner{func(_ *aclfilter.Filter, az acl.Authorizer) { res = consul.FilterDirEnt(az, v) },
-			func() ([]OutGroup, string) {
+		return &runner{obj: nil, run: func(_ *aclfilter.Filter, az acl.Authorizer) { res = consul.FilterDirEnt(az, v) },
+			proj: func() ([]OutGroup, string) {
 				return flat("list", projPtr(res, func(x *structs.DirEntry) string { return string(x.Value) }, nil)), "na"
 			}}, nil
 	case "TxnResults":
@@ -985,8 +1051,8 @@ func Build(c *Case) (*runner, error) {
 			return &structs.TxnResult{Check: mkCheck(e, e.nm.node)}
 		}))
 		var res structs.TxnResults
-		return &runner{func(_ *aclfilter.Filter, az acl.Authorizer) { res = consul.FilterTxnResults(az, v) },
-			func() ([]OutGroup, string) {
+		return &runner{obj: nil, run: func(_ *aclfilter.Filter, az acl.Authorizer) { res = consul.FilterTxnResults(az, v) },
+			proj: func() ([]OutGroup, string) {
 				return flat("list", projPtr(res, func(x *structs.TxnResult) string {
 					switch {
 					case x.KV != nil:
@@ -1063,6 +1129,10 @@ func Exec(c *Case, class string, reps int, src string, caseNo int) ([]*Event, er
 		if err != nil {
 			return nil, err
 		}
+		if c.Prior == "yes" {
+			setPrior(run.obj, true)
+		}
+		prior := priorOf(run.obj)
 		f := aclfilter.New(az, hclog.NewNullLogger())
 		run.run(f, az)
 		out, flag := run.proj()
@@ -1081,12 +1151,12 @@ func Exec(c *Case, class string, reps int, src string, caseNo int) ([]*Event, er
 				flag = "yes"
 			}
 		}
-		kb, _ := json.Marshal([]any{out, flag})
+		kb, _ := json.Marshal([]any{out, flag, prior})
 		if ev, ok := seen[string(kb)]; ok {
 			ev.Reps++
 			continue
 		}
-		ev := &Event{T: "filter", Kind: c.Kind, Acl: c.Acl, Az: class, Src: src, In: c.Groups, Out: out, Flag: flag, Reps: 1, Drift: drift, CaseNo: caseNo}
+		ev := &Event{T: "filter", Kind: c.Kind, Acl: c.Acl, Az: class, Src: src, In: c.Groups, Out: out, Prior: prior, Seq: 1, Flag: flag, Reps: 1, Drift: drift, CaseNo: caseNo}
 		seen[string(kb)] = ev
 		order = append(order, string(kb))
 	}
@@ -1096,6 +1166,46 @@ func Exec(c *Case, class string, reps int, src string, caseNo int) ([]*Event, er
 		evs = append(evs, seen[k])
 	}
 	return evs, nil
+}
+
+// ExecReeval mirrors blockingquery.Query: ONE reply object, the query function runs twice. The first run
+// populates it with `first` and filters; the second run re-populates the same object with `second` (QueryMeta
+// untouched) and filters again. Only the second evaluation is returned as an event (the first is an ordinary
+// case); its prior is whatever the real first evaluation left in the object.
+func ExecReeval(first, second *Case, class string, src string, caseNo int) (*Event, error) {
+	if first.Kind != second.Kind {
+		return nil, fmt.Errorf("reeval: kinds differ")
+	}
+	az, err := Authorizer(class, second.Acl)
+	if err != nil {
+		return nil, err
+	}
+	Prepare(first, az)
+	drift := Prepare(second, az)
+	if drift == nil {
+		drift = []string{}
+	}
+	r1, err := Build(first)
+	if err != nil {
+		return nil, err
+	}
+	if len(flagFields(r1.obj)) == 0 {
+		return nil, nil // no flag on this type
+	}
+	f := aclfilter.New(az, hclog.NewNullLogger())
+	r1.run(f, az)
+	r2, err := Build(second)
+	if err != nil {
+		return nil, err
+	}
+	if err := repopulate(r1.obj, r2.obj); err != nil {
+		return nil, err
+	}
+	prior := priorOf(r1.obj)
+	r1.run(aclfilter.New(az, hclog.NewNullLogger()), az)
+	out, flag := r1.proj()
+	return &Event{T: "filter", Kind: second.Kind, Acl: second.Acl, Az: class, Src: src, In: second.Groups, Out: out, Prior: prior, Seq: 2,
+		Flag: flag, Reps: 1, Outcomes: 1, Drift: drift, CaseNo: caseNo}, nil
 }
 
 // Clone deep-copies a case (Prepare mutates it).
